@@ -7,7 +7,7 @@
    NOT proved: that every reachable state of the store model passes the auditor (L2 links and L3 data-block layout are
    not in the Coq model of the store); that part rests on the audited real images (tie T2). *)
 Require Import List ZArith Lia Sorted. Import ListNotations.
-Require Import IW.KV.Audit IW.KV.Audit_proofs.
+Require Import IW.KV.Keys IW.KV.Audit IW.KV.Audit_proofs IW.KV.Records IW.KV.AuditRecords_proofs IW.Gen.Facts.
 Local Open Scope Z_scope.
 
 (* the adjacent-overlap test on the ranges sorted by start is pairwise disjointness (blocks, and slots of a data block) *)
@@ -52,3 +52,16 @@ Example C06_bitmap_example_leak :
   let rd := fun o => if o =? 100 then 15 else if o =? 101 then 7 else 0 in
   check_map rd 100 0 16 (sort_ranges [(8, 2); (0, 4)]) = [CLeak 10].
 Proof. vm_compute. reflexivity. Qed.
+
+(* the auditor and the record reader of the read-back theorems (C03) agree: a node the auditor has no complaint about has
+   1..32 records, every one of them is readable by `node_recs`, and the stored keys the auditor judged (order inside the
+   node, global order, cached prefix) are exactly the keys of the records that reader returns - for every file image, every
+   block number and every key mode *)
+Theorem C06_audited_node_is_readable :
+  forall (rd : Z -> Z) (m : kmode) (blk : Z),
+    let s := read_sblk rd blk in
+    fst (fst (audit_node rd m s)) = [] ->
+    exists recs, node_recs rd s = Some recs /\ map fst recs = snd (fst (audit_node rd m s)) /\
+                 length recs = Z.to_nat (s_pnum s) /\ 1 <= s_pnum s <= KVBLK_IDXNUM.
+Proof. exact audited_node_is_readable. Qed.
+Print Assumptions C06_audited_node_is_readable.
